@@ -187,6 +187,7 @@ def shards(tier):
         if c['block'] not in seen and not c.get('corner'):
             seen.add(c['block'])
             out.append(dict(c, early=1))
+            out.append(dict(c, directsim=1))     # the simulator class constructed directly instead of hw.getSimulator()
     return out
 
 
